@@ -573,7 +573,11 @@ def minimize_subcircuits(
         circuit = new_circuit
         logger.debug("Improved circuit size")
 
-        # Update the states
+        # Update the states: no gate of the replaced cone is what it was, whether
+        # its label is reused by the new cone or gone.
+        for gate in subcircuit.gates:
+            if gate not in inputs_set:
+                node_states[gate] = _NodeState.REMOVED
         for output in output_labels_mapping:
             node_states[output] = _NodeState.REMOVED
 
